@@ -13,6 +13,8 @@ import (
 // own decision procedures, so the two are kept equal by the correspondence.
 type hyps struct {
 	WF, AliasFree, LatestLast, OptPlain, BundleFree bool
+	// ConflictCycle[i]: the i-th version (order of the `v:` records) as root reaches a conflict cycle
+	ConflictCycle []bool
 }
 
 type mrow struct {
@@ -104,7 +106,153 @@ func hypsOf(table, body string) (hyps, error) {
 		}
 	}
 	h.WF = u1 && u2 && universe.NpmU3(u) && twf
+	h.ConflictCycle = conflictCycles(t, u, rows, latest, attrOf)
 	return h, nil
+}
+
+// conflictCycles mirrors DepsDev.Props.C06.conflictCycleFrom for every version of the universe
+// (in the order of the `v:` records): among the surviving requirements of the versions the root
+// reaches in the pick graph (version -> the version a fresh install for one of its requirements
+// would pick), the pick graph restricted to packages on which some requirement rejects the pick
+// of another, self-loops removed, has a cycle. Everything is computed from the op line's
+// records, as the Lean side does.
+func conflictCycles(t *universe.Table, u *universe.NpmUniverse, rows []mrow, latest map[string]string,
+	attrOf func(pkg, ver string) (universe.AttrSet, bool)) []bool {
+	type vk struct{ n, v string }
+	type req struct {
+		from     vk
+		pkg, req string // indices as strings
+	}
+	var reqs []req
+	for _, v := range u.Versions {
+		for _, d := range universe.NpmRegularImports(v.Imports) {
+			reqs = append(reqs, req{vk{t.Ix(v.Name), t.Ix(v.Version)}, t.Ix(d.Name), t.Ix(d.Req)})
+		}
+	}
+	rowOf := func(pkg, rq string) ([]string, bool) {
+		for _, r := range rows {
+			if r.pkg == pkg && r.req == rq {
+				return r.vs, true
+			}
+		}
+		return nil, false // error row (`!`) or missing
+	}
+	// wouldPick (resolve.go lines 321-332) on the table row
+	type pk struct{ pkg, req string }
+	pickMemo := map[pk]*string{}
+	pickOf := func(pkg, rq string) (string, bool) {
+		if p, ok := pickMemo[pk{pkg, rq}]; ok {
+			if p == nil {
+				return "", false
+			}
+			return *p, true
+		}
+		res := func() *string {
+			vs, ok := rowOf(pkg, rq)
+			if !ok || len(vs) == 0 {
+				return nil
+			}
+			l, hasLatest := latest[pkg]
+			la, _ := attrOf(pkg, l)
+			for i := len(vs) - 1; i >= 0; i-- {
+				va, _ := attrOf(pkg, vs[i])
+				equal := va.IsRegular()
+				if hasLatest {
+					equal = vs[i] == l || va.Equal(la)
+				}
+				if equal || va.Mask&universe.VerBlocked == 0 {
+					return &vs[i]
+				}
+			}
+			return &vs[len(vs)-1]
+		}()
+		pickMemo[pk{pkg, rq}] = res
+		if res == nil {
+			return "", false
+		}
+		return *res, true
+	}
+	rejects := func(pkg, rq, w string) bool {
+		if rq == "1" { // "*"
+			return false
+		}
+		vs, ok := rowOf(pkg, rq)
+		if !ok {
+			return false
+		}
+		for _, v := range vs {
+			if v == w {
+				return false
+			}
+		}
+		return true
+	}
+	type edge struct{ a, b vk }
+	var full []edge
+	for _, r := range reqs {
+		if w, ok := pickOf(r.pkg, r.req); ok {
+			full = append(full, edge{r.from, vk{r.pkg, w}})
+		}
+	}
+	closure := func(es []edge, start vk) map[vk]bool {
+		seen := map[vk]bool{start: true}
+		for changed := true; changed; {
+			changed = false
+			for _, f := range es {
+				if seen[f.a] && !seen[f.b] {
+					seen[f.b], changed = true, true
+				}
+			}
+		}
+		return seen
+	}
+	out := make([]bool, len(u.Versions))
+	for i, root := range u.Versions {
+		reach := closure(full, vk{t.Ix(root.Name), t.Ix(root.Version)})
+		var rs []req
+		for _, r := range reqs {
+			if reach[r.from] {
+				rs = append(rs, r)
+			}
+		}
+		conflicted := map[string]bool{}
+		for _, r1 := range rs {
+			w, ok := pickOf(r1.pkg, r1.req)
+			if !ok || conflicted[r1.pkg] {
+				continue
+			}
+			for _, r2 := range rs {
+				if r2.pkg == r1.pkg && rejects(r2.pkg, r2.req, w) {
+					conflicted[r1.pkg] = true
+					break
+				}
+			}
+		}
+		var es []edge
+		for _, r := range rs {
+			if !conflicted[r.from.n] || !conflicted[r.pkg] {
+				continue
+			}
+			if w, ok := pickOf(r.pkg, r.req); ok && r.from != (vk{r.pkg, w}) {
+				es = append(es, edge{r.from, vk{r.pkg, w}})
+			}
+		}
+		for _, e := range es {
+			if closure(es, e.b)[e.a] {
+				out[i] = true
+				break
+			}
+		}
+	}
+	return out
+}
+
+func bits(bs []bool) string {
+	var sb strings.Builder
+	for _, b := range bs {
+		sb.WriteString(bit(b))
+	}
+	return sb.String()
 }
 
 func bit(b bool) string {
@@ -115,6 +263,6 @@ func bit(b bool) string {
 }
 
 func (h hyps) String() string {
-	return fmt.Sprintf("ok wf=%s aliasfree=%s latestlast=%s optplain=%s bundlefree=%s",
-		bit(h.WF), bit(h.AliasFree), bit(h.LatestLast), bit(h.OptPlain), bit(h.BundleFree))
+	return fmt.Sprintf("ok wf=%s aliasfree=%s latestlast=%s optplain=%s bundlefree=%s conflictcycle=%s",
+		bit(h.WF), bit(h.AliasFree), bit(h.LatestLast), bit(h.OptPlain), bit(h.BundleFree), bits(h.ConflictCycle))
 }
